@@ -49,12 +49,16 @@ def deep(v):
 class VecInterp(SE.Interp):
     def __init__(self, facts):
         super().__init__(facts, max_steps=200000)
-        self.index_impls = {}
-        for fn, fo in facts.fns.items():
-            tr = str(fo.get("impl_trait") or "")
-            if tr.startswith("core::ops::index::Index") and fn in facts.hir and len(fo["inputs"]) == 2:
-                adt = (fo.get("impl_self") or {}).get("adt")
-                self.index_impls[(adt, tr.endswith("IndexMut"), fo["inputs"][1]["s"])] = fn
+        cached = getattr(facts, "_index_impls", None)
+        if cached is None:
+            cached = {}
+            for fn, fo in facts.fns.items():
+                tr = str(fo.get("impl_trait") or "")
+                if tr.startswith("core::ops::index::Index") and fn in facts.hir and len(fo["inputs"]) == 2:
+                    adt = (fo.get("impl_self") or {}).get("adt")
+                    cached[(adt, tr.endswith("IndexMut"), fo["inputs"][1]["s"])] = fn
+            facts._index_impls = cached
+        self.index_impls = cached
 
     def overloaded_index(self, e0, env, base):
         """User Index/IndexMut impls are evaluated, not assumed."""
@@ -126,6 +130,10 @@ class VecInterp(SE.Interp):
                     return v & ((1 << {"u32": 32, "u16": 16, "u8": 8}[ty]) - 1)
         if k == "match" and e0.get("src") == "ForLoopDesugar":
             return self.for_loop(e0, env)
+        if k == "mcall" and e0.get("name") == "into" and not e0.get("callee_local"):
+            cands = [fn for fn in self.facts.hir if fn.startswith("<%s as core::convert::From<" % e0.get("ty"))]
+            if len(cands) == 1:
+                return self.call_fn(cands[0], [self.ev(e0["recv"], env)])
         if k == "match" and str(e0.get("src", "")).startswith("TryDesugar"):
             # `x?` on an Option: None returns None from the function, Some(v) yields v
             sc = H.unwrap(e0["scrut"])
